@@ -620,7 +620,12 @@ fn show_input(texts: &[String], syms: &[&str]) -> String {
 
 /// Compile the file set with the given command-line symbols and compare with the reference.
 fn check_files(fam: &str, files: &[FileSpec], mask: u32, out: &mut CaseOut, st: &mut Stats) {
-    let syms = subset(mask);
+    check_files_with(fam, files, &subset(mask), out, st)
+}
+
+/// ... with any list of command-line symbols.
+fn check_files_with(fam: &str, files: &[FileSpec], syms: &[&str], out: &mut CaseOut, st: &mut Stats) {
+    let syms: Vec<&str> = syms.to_vec();
     let texts: Vec<String> = files.iter().map(|f| f.render()).collect();
     let start: BTreeSet<String> = syms.iter().map(|s| s.to_string()).collect();
     let refs: Vec<RefOut> = texts.iter().map(|t| reference(t, &start)).collect();
@@ -1700,10 +1705,87 @@ impl ConditionalModule {
     }
 }
 
+/// Symbols are compared as whole names, exactly: names that are prefixes of each other, differ in letter case, in a
+/// digit or in an underscore are different symbols - on the command line, in #define / #undef and in conditions.
+pub struct SymbolNames;
+const SN_NAMES: [&str; 8] = ["Foo", "Foo_1", "foo_1", "Foo_12", "F", "FOO", "Fo", "Foo_"];
+const SN_FORMS: u64 = 5;
+impl SymbolNames {
+    fn build(idx: u64) -> (FileSpec, Vec<&'static str>, String) {
+        let d = SN_NAMES[(idx % 8) as usize];
+        let t = SN_NAMES[((idx / 8) % 8) as usize];
+        let form = (idx / 64) % SN_FORMS;
+        let l = &PLAIN;
+        let mut f = FileSpec::new(l);
+        let mut syms: Vec<&'static str> = vec![];
+        let what;
+        match form {
+            0 => {
+                syms.push(d);
+                what = format!("-D {d}, then #if {t}");
+            }
+            1 => {
+                f.directive(&format!("#define {d}"), l);
+                what = format!("#define {d}, then #if {t}");
+            }
+            2 => {
+                // both on the command line, one of them undefined again in the file
+                syms.push(d);
+                syms.push(t);
+                f.directive(&format!("#undef {d}"), l);
+                what = format!("-D {d} -D {t}, #undef {d}, then #if {t}");
+            }
+            3 => {
+                f.directive(&format!("#define {t}"), l);
+                f.directive(&format!("#define {d}"), l);
+                f.directive(&format!("#undef {d}"), l);
+                what = format!("#define {t}, #define {d}, #undef {d}, then #if {t}");
+            }
+            _ => {
+                syms.push(d);
+                what = format!("-D {d}, then #if !{t} && ({d} || {t})");
+            }
+        }
+        let cond = if form == 4 { format!("!{t} && ({d} || {t})") } else { t.to_string() };
+        f.directive(&format!("#if {cond}"), l);
+        f.probe("P", l, true);
+        f.directive(&format!("#elif {d}"), l);
+        f.probe("P", l, false);
+        f.directive("#else", l);
+        f.probe("P", l, false);
+        f.directive("#endif", l);
+        f.probe("P", l, false);
+        (f, syms, what)
+    }
+}
+impl Family for SymbolNames {
+    fn name(&self) -> String {
+        format!("symbol-names/8 x 8 names that are prefixes of each other or differ in case, a digit or an underscore ({SN_NAMES:?}) x 5 ways of defining one and testing the other (command line, #define, #undef of the neighbour, a compound condition)")
+    }
+    fn len(&self) -> u64 {
+        64 * SN_FORMS
+    }
+    fn describe(&self, idx: u64) -> Value {
+        let (f, syms, what) = Self::build(idx);
+        json!({"case": what, "command_line_symbols": syms, "file": f.render()})
+    }
+    fn run(&self, idx: u64) -> CaseOut {
+        let (f, syms, what) = Self::build(idx);
+        let mut out = CaseOut::new(hash_str(&format!("c06sn{what}")));
+        let mut st = Stats::default();
+        check_files_with("symbol-names", std::slice::from_ref(&f), &syms, &mut out, &mut st);
+        st.finish(&mut out);
+        out.nontrivial = true;
+        out.class = format!("form{}:{}", (idx / 64) % SN_FORMS, if idx % 8 == (idx / 8) % 8 { "same-name" } else { "other-name" });
+        out
+    }
+}
+
 pub fn families(tier: &str) -> Vec<Box<dyn Family>> {
     let quick = tier == "quick";
     let mut v: Vec<Box<dyn Family>> = vec![];
     v.push(Box::new(ConditionalModule));
+    v.push(Box::new(SymbolNames));
     v.push(Box::new(ElifChains { max_branches: if quick { 3 } else { 4 } }));
     // small, cheap families first so that a wall cap can only cut the largest sequence family
     v.push(Box::new(ExprTrees { depth: if quick { 3 } else { 4 }, exprs: gen_exprs(if quick { 3 } else { 4 }) }));
